@@ -15,6 +15,7 @@ import (
 	"bytes"
 	"io"
 	"log"
+	"os"
 	"encoding/json"
 	"fmt"
 	"hash/fnv"
@@ -292,7 +293,27 @@ type run struct {
 	seenHist sync.Map
 	nHist, nExec, nDerived, nontrivial int64
 	feat     map[string]int64
+	triage   map[string]int64
 	info     map[string]int64
+}
+
+// report hands mismatches to the verdict path; with VERIF_C10_TRIAGE set (development) they are only tallied.
+func (r *run) report(s Scenario, ms []core.Mismatch) {
+	if len(ms) == 0 {
+		return
+	}
+	if os.Getenv("VERIF_C10_TRIAGE") == "" {
+		r.c.Report(s, ms)
+		return
+	}
+	r.mu.Lock()
+	for _, m := range ms {
+		r.triage[m.Signature]++
+		if r.triage[m.Signature] <= 2 {
+			fmt.Printf("TRIAGE %s :: %s :: %.700s\n", m.Signature, histString(s.Hist)+" @"+s.Emb, m.Detail)
+		}
+	}
+	r.mu.Unlock()
 }
 
 func (r *run) note(k string) {
@@ -374,7 +395,7 @@ func (r *run) handle(p []byte, extra int) {
 				atomic.AddInt64(&r.nDerived, 1)
 			}
 		}
-		r.c.Report(s, ms)
+		r.report(s, ms)
 		if stream == nil {
 			continue
 		}
@@ -426,7 +447,7 @@ func (r *run) judgeAll() {
 		sort.Ints(ids)
 		for _, id := range ids {
 			s := r.evScen[lo+id-1]
-			r.c.Report(s, verdictMismatches(vs[id], &s, r.events[lo+id-1].Sm))
+			r.report(s, verdictMismatches(vs[id], &s, r.events[lo+id-1].Sm))
 		}
 	}
 }
@@ -440,7 +461,7 @@ func (d Driver) Run(c *core.Ctx) error {
 		"methods counted as 'documented as returning a new path': NewPathOps in spec/Builder.tla (Transform and Gridsnap are documented in-place and exempt)",
 		"Triangulate (documented WIP), Tile and the rasterizer adapters are not part of the totality claim",
 	}
-	r := &run{c: c, evKey: map[string]int{}, feat: map[string]int64{}, info: map[string]int64{}, newPath: setOf(defaultNewPath)}
+	r := &run{c: c, evKey: map[string]int{}, feat: map[string]int64{}, triage: map[string]int64{}, info: map[string]int64{}, newPath: setOf(defaultNewPath)}
 
 	// 1. model level: the machine's invariants, the normal form is a normal form, the judge accepts the spec's own
 	//    rendering of every meaning; prints the header (NewPathOps)
@@ -469,6 +490,16 @@ func (d Driver) Run(c *core.Ctx) error {
 	// 3. code -> spec
 	r.judgeAll()
 
+	if len(r.triage) > 0 {
+		ks := make([]string, 0, len(r.triage))
+		for k := range r.triage {
+			ks = append(ks, k)
+		}
+		sort.Strings(ks)
+		for _, k := range ks {
+			fmt.Printf("TRIAGE-COUNT %8d %s\n", r.triage[k], k)
+		}
+	}
 	c.SetExtra("histories", r.nHist)
 	c.SetExtra("executions", r.nExec)
 	c.SetExtra("derived_batches", r.nDerived)
